@@ -1,34 +1,35 @@
 #!/bin/bash
-# dev helper: verify a seeded change and run checks against it.
-#   seedcheck.sh <patch.diff> <check ids...>
+# dev helper: verify a seeded change and run checks against it, in a scratch worktree (never /repo).
+#   [DEMO=<file> DEMODIR=<pkg dir> [DEMORUN=<regex>] [DEMORACE=1]] [TIER=thorough] seedcheck.sh <patch.diff> <check ids...>
 # 1. fresh scratch worktree of /repo HEAD + patch: builds, baseline suites (all but the root package) pass
-# 2. patch applied to /repo, listed checks run, patch undone
+# 2. optional demo: fails with the patch, passes without
+# 3. the listed checks run against the patched worktree (VERIF_REPO), evidence/replays go to /verif/.work
 set -u
 export GOFLAGS=-mod=mod GOPROXY=off GOSUMDB=off GOTOOLCHAIN=local
-patch=$1; shift
-if [ -n "$(git -C /repo status --porcelain)" ]; then echo "seedcheck: /repo is dirty"; exit 9; fi
+patch=$(readlink -f "$1"); shift
 wt=/tmp/sc_wt_$$
 git -C /repo worktree add -q $wt HEAD || exit 3
-( cd $wt && git apply "$patch" ) || { echo "PATCH DOES NOT APPLY"; git -C /repo worktree remove --force $wt; exit 4; }
+trap 'git -C /repo worktree remove --force '$wt' 2>/dev/null' EXIT
+( cd $wt && git apply "$patch" ) || { echo "PATCH DOES NOT APPLY"; exit 4; }
 echo "== baseline suites with the patch"
 ( cd $wt && go build ./... && go test -vet=off -count=1 ./... 2>&1 | grep -v "no test files" | grep -v "^ok" | grep -v "licenses.db" | grep -v "^FAIL$" | grep -v "FAIL	github.com/google/licenseclassifier	" | head -5 )
 ( cd $wt/v2 && go build ./... && go test -vet=off -count=1 ./... 2>&1 | grep -v "no test files" | grep -v "^ok" | head -5 )
+( cd $wt && git checkout -q -- go.sum v2/go.sum 2>/dev/null )
 if [ -n "${DEMO:-}" ]; then
   echo "== demo ($DEMO in $DEMODIR): with the patch (must FAIL), without (must pass)"
   cp "$DEMO" $wt/$DEMODIR/zz_seed_demo_test.go
   DEMORUN=${DEMORUN:-"^($(grep -oE '^func (Test[A-Za-z0-9_]+)' "$DEMO" | sed 's/func //' | paste -sd'|'))\$"}
   mod=$wt; case "$DEMODIR" in v2*) mod=$wt/v2;; esac
   rel=./${DEMODIR#v2}; rel=${rel%/}; [ "$rel" = "." ] && rel=./
-  ( cd $mod && go test ${DEMORACE:+-race} -vet=off -count=1 -run "${DEMORUN:-Demo}" $rel 2>&1 | tail -3 | cut -c1-200 )
+  ( cd $mod && go test ${DEMORACE:+-race} -vet=off -count=1 -run "$DEMORUN" $rel 2>&1 | tail -3 | cut -c1-200 )
   ( cd $wt && git apply -R "$patch" )
-  ( cd $mod && go test ${DEMORACE:+-race} -vet=off -count=1 -run "${DEMORUN:-Demo}" $rel 2>&1 | tail -2 | cut -c1-200 )
+  ( cd $mod && go test ${DEMORACE:+-race} -vet=off -count=1 -run "$DEMORUN" $rel 2>&1 | tail -2 | cut -c1-200 )
+  rm -f $wt/$DEMODIR/zz_seed_demo_test.go
+  ( cd $wt && git apply "$patch" && git checkout -q -- go.sum v2/go.sum 2>/dev/null )
 fi
-git -C /repo worktree remove --force $wt
-echo "== checks with the patch applied to /repo"
-git -C /repo apply "$patch" || exit 5
+echo "== checks against the patched worktree"
 for id in "$@"; do
-  out=$(/verif/h/bin/vcheck $id ${TIER:+--tier $TIER} 2>&1); rc=$?
+  out=$(VERIF_REPO=$wt /verif/h/bin/vcheck $id ${TIER:+--tier $TIER} 2>&1); rc=$?
   echo "$id rc=$rc: $(echo "$out" | grep -c '^VIOLATION') violation lines"; echo "$out" | grep -A1 '^VIOLATION' | grep 'what:' | head -${LINES_:-2} | cut -c1-400
   [ $rc -eq 2 ] && echo "$out" | tail -5 | cut -c1-300
 done
-git -C /repo checkout -- . ; git -C /repo status --short
